@@ -50,18 +50,22 @@ package commitlog
 //@   loop 1 invariant forall j int :: 0 <= j && j < len(cleanedSegments) ==> cleanedSegments[j] == old(segments[i+1+j])
 //@   loop 1 invariant totalMessages == old(sumCount(segments, i+1, len(segments)))
 //@   loop 1 invariant i < len(segments)-2 ==> totalMessages <= c.Retention.Messages
+// (removal is from the OLDEST end at every instant, not only when the pass is over: the doomed segments are handed to
+//  deleteSegments - which removes them in the order given - oldest first, so that a pass cut short, by an error or by
+//  the death of the process, leaves a contiguous suffix of the log and not a hole in it)
+//@   call deleteSegments requires [C09:the-doomed-segments-are-handed-over-oldest-first] forall j int :: 0 <= j && j < len(arg1) ==> arg1[j] == old(segments[j])
 //@   ensures [deleted] err == nil ==> (forall j int :: 0 <= j && j < len(segments)-len(out) ==> ghost.removed[old(segments[j])])
 //@   ensures [only-deleted] forall s *segment :: ghost.removed[s] ==> old(ghost.removed[s]) || (exists j int :: 0 <= j && j < len(segments)-len(out) && old(segments[j]) == s) || err != nil
-//@   loop 2 invariant -1 <= i && i <= len(segments)-2
-//@   loop 2 invariant forall j int :: 0 <= j && j < len(segments) ==> segments[j] == old(segments[j])
+//@   loop 2 invariant 0 <= j && j <= i+1 && 0 <= i && i == len(segments)-len(cleanedSegments)-1
+//@   loop 2 invariant forall k int :: 0 <= k && k < len(segments) ==> segments[k] == old(segments[k])
 //@   loop 2 invariant fresh(cleanedSegments)
 //@   loop 2 invariant fresh(toDelete)
 //@   loop 2 invariant arrOf(toDelete) != arrOf(cleanedSegments)
-//@   loop 2 invariant forall j int :: 0 <= j && j < len(cleanedSegments) ==> cleanedSegments[j] == old(segments[len(segments)-len(cleanedSegments)+j])
-//@   loop 2 invariant len(toDelete) == len(segments)-len(cleanedSegments)-1-i
+//@   loop 2 invariant forall k int :: 0 <= k && k < len(cleanedSegments) ==> cleanedSegments[k] == old(segments[len(segments)-len(cleanedSegments)+k])
+//@   loop 2 invariant len(toDelete) == j
 //@   loop 2 invariant len(toDelete) <= cap(toDelete)
-//@   loop 2 invariant forall j int :: 0 <= j && j < len(toDelete) ==> toDelete[j] == old(segments[len(segments)-len(cleanedSegments)-1-j])
-//@   loop 2 invariant forall j int :: i < j && j <= len(segments)-len(cleanedSegments)-1 ==> toDelete[len(segments)-len(cleanedSegments)-1-j] == old(segments[j])
+//@   loop 2 invariant forall k int :: 0 <= k && k < len(toDelete) ==> toDelete[k] == old(segments[k])
+//@   loop 2 invariant forall k int {segments[k]} :: 0 <= k && k < len(toDelete) ==> old(segments[k]) == toDelete[k]
 
 // applyBytesLimit: same contract over the byte sizes.
 // (the result is a suffix of the input that keeps the newest segment; a segment is
@@ -82,18 +86,22 @@ package commitlog
 //@   loop 1 invariant forall j int :: 0 <= j && j < len(cleanedSegments) ==> cleanedSegments[j] == old(segments[i+1+j])
 //@   loop 1 invariant totalBytes == old(sumSize(segments, i+1, len(segments)))
 //@   loop 1 invariant i < len(segments)-2 ==> totalBytes <= c.Retention.Bytes
+// (removal is from the OLDEST end at every instant, not only when the pass is over: the doomed segments are handed to
+//  deleteSegments - which removes them in the order given - oldest first, so that a pass cut short, by an error or by
+//  the death of the process, leaves a contiguous suffix of the log and not a hole in it)
+//@   call deleteSegments requires [C09:the-doomed-segments-are-handed-over-oldest-first] forall j int :: 0 <= j && j < len(arg1) ==> arg1[j] == old(segments[j])
 //@   ensures [deleted] err == nil ==> (forall j int :: 0 <= j && j < len(segments)-len(out) ==> ghost.removed[old(segments[j])])
 //@   ensures [only-deleted] forall s *segment :: ghost.removed[s] ==> old(ghost.removed[s]) || (exists j int :: 0 <= j && j < len(segments)-len(out) && old(segments[j]) == s) || err != nil
-//@   loop 2 invariant -1 <= i && i <= len(segments)-2
-//@   loop 2 invariant forall j int :: 0 <= j && j < len(segments) ==> segments[j] == old(segments[j])
+//@   loop 2 invariant 0 <= j && j <= i+1 && 0 <= i && i == len(segments)-len(cleanedSegments)-1
+//@   loop 2 invariant forall k int :: 0 <= k && k < len(segments) ==> segments[k] == old(segments[k])
 //@   loop 2 invariant fresh(cleanedSegments)
 //@   loop 2 invariant fresh(toDelete)
 //@   loop 2 invariant arrOf(toDelete) != arrOf(cleanedSegments)
-//@   loop 2 invariant forall j int :: 0 <= j && j < len(cleanedSegments) ==> cleanedSegments[j] == old(segments[len(segments)-len(cleanedSegments)+j])
-//@   loop 2 invariant len(toDelete) == len(segments)-len(cleanedSegments)-1-i
+//@   loop 2 invariant forall k int :: 0 <= k && k < len(cleanedSegments) ==> cleanedSegments[k] == old(segments[len(segments)-len(cleanedSegments)+k])
+//@   loop 2 invariant len(toDelete) == j
 //@   loop 2 invariant len(toDelete) <= cap(toDelete)
-//@   loop 2 invariant forall j int :: 0 <= j && j < len(toDelete) ==> toDelete[j] == old(segments[len(segments)-len(cleanedSegments)-1-j])
-//@   loop 2 invariant forall j int :: i < j && j <= len(segments)-len(cleanedSegments)-1 ==> toDelete[len(segments)-len(cleanedSegments)-1-j] == old(segments[j])
+//@   loop 2 invariant forall k int :: 0 <= k && k < len(toDelete) ==> toDelete[k] == old(segments[k])
+//@   loop 2 invariant forall k int {segments[k]} :: 0 <= k && k < len(toDelete) ==> old(segments[k]) == toDelete[k]
 
 
 // removed: the segments handed to Delete() (their files are removed) -- the retention effect
@@ -134,6 +142,10 @@ package commitlog
 //@   ensures [input-kept] forall j int :: 0 <= j && j < len(segments) ==> segments[j] == old(segments[j])
 //@   ensures [untouched-if-short] len(segments) <= 1 ==> err == nil && out == segments
 //@   ensures [suffix] err == nil ==> arrOf(out) == arrOf(segments) && offOf(out) + len(out) == offOf(segments) + len(segments) && len(out) <= len(segments) && (len(segments) >= 1 ==> len(out) >= 1)
+// (removal is from the OLDEST end at every instant, not only when the pass is over: the doomed segments are handed to
+//  deleteSegments - which removes them in the order given - oldest first, so that a pass cut short, by an error or by
+//  the death of the process, leaves a contiguous suffix of the log and not a hole in it)
+//@   call deleteSegments requires [C09:the-doomed-segments-are-handed-over-oldest-first] forall j int :: 0 <= j && j < len(arg1) ==> arg1[j] == old(segments[j])
 //@   ensures [deleted] err == nil ==> (forall j int :: 0 <= j && j < len(segments)-len(out) ==> ghost.removed[old(segments[j])])
 //@   ensures [only-deleted] forall s *segment :: ghost.removed[s] ==> old(ghost.removed[s]) || (exists j int :: 0 <= j && j < len(segments)-len(out) && old(segments[j]) == s) || err != nil
 //@   ensures [only-expired] err == nil ==> (forall j int :: 0 <= j && j < len(segments)-len(out) ==> old(segments[j].lastWriteTime) < ghost.ttl)
